@@ -81,6 +81,8 @@ pub enum Ty {
     Map(Box<Ty>, Box<Ty>),
     Tagged(u64, Box<Ty>),
     ByteArr(usize),
+    /// C string: a definite byte string whose only NUL is its last byte; the value is the rest
+    CStr,
     Res(Box<Ty>, Box<Ty>),
     Range(Box<Ty>),
     Duration,
@@ -177,6 +179,10 @@ pub fn model(ty: &Ty, it: &Item) -> Exp {
         },
         Ty::Bytes => match it {
             Item::Bytes { v, .. } => Exp::Val(V::Bytes(v.clone())),
+            _ => Exp::Err,
+        },
+        Ty::CStr => match it {
+            Item::Bytes { v, .. } if v.last() == Some(&0) && !v[..v.len() - 1].contains(&0) => Exp::Val(V::Bytes(v[..v.len() - 1].to_vec())),
             _ => Exp::Err,
         },
         Ty::ByteArr(n) => match it {
@@ -452,6 +458,16 @@ impl ToV for &ByteSlice {
 impl ToV for &[u8] {
     fn to_v(&self) -> V {
         V::Bytes(self.to_vec())
+    }
+}
+impl ToV for &std::ffi::CStr {
+    fn to_v(&self) -> V {
+        V::Bytes(self.to_bytes().to_vec())
+    }
+}
+impl ToV for std::ffi::CString {
+    fn to_v(&self) -> V {
+        V::Bytes(self.as_bytes().to_vec())
     }
 }
 impl<const N: usize> ToV for ByteArray<N> {
@@ -832,6 +848,18 @@ pub fn targets() -> Vec<Target> {
             },
         },
         Target {
+            name: "decode::<&CStr>",
+            ty: CStr,
+            real: |b| {
+                let mut d = Decoder::new(b);
+                let r: Result<&std::ffi::CStr, _> = d.decode();
+                let prov = r.as_ref().map(|s| mon::within(b, s.to_bytes_with_nul().as_ptr(), s.to_bytes_with_nul().len())).unwrap_or(true);
+                let mut o = obs(r, d.position());
+                o.prov_ok = prov;
+                o
+            },
+        },
+        Target {
             name: "decode::<HashMap<u64,&str>>",
             ty: Map(bx(U64), bx(Str)),
             real: |b| {
@@ -845,6 +873,7 @@ pub fn targets() -> Vec<Target> {
         },
     ];
     v.extend(vec![
+        tgt!(std::ffi::CString, CStr),
         tgt!(u8, U8),
         tgt!(u64, U64),
         tgt!(i16, I16),
@@ -1001,7 +1030,7 @@ pub fn shaped_item(rng: &mut Rng) -> Item {
     use vcore::gen::{gen_u64, widen};
     let uint = |rng: &mut Rng| Item::uint(if rng.bool() { rng.below(300) } else { gen_u64(rng) });
     let text = |rng: &mut Rng| Item::text(&vcore::gen::gen_string(rng, false));
-    let it = match rng.below(14) {
+    let it = match rng.below(16) {
         0 | 1 => {
             let n = rng.below(5) as usize;
             Item::array((0..n).map(|_| uint(rng)).collect())
@@ -1022,7 +1051,19 @@ pub fn shaped_item(rng: &mut Rng) -> Item {
         10 => Item::array((0..rng.below(4)).map(|_| if rng.chance(1, 3) { Item::null() } else { Item::uint(rng.below(256)) }).collect()),
         11 => Item::array((0..rng.below(3)).map(|_| Item::array((0..rng.below(3)).map(|_| uint(rng)).collect())).collect()),
         12 => Item::map((0..rng.below(3)).map(|_| (text(rng), Item::array((0..rng.below(3)).map(|_| uint(rng)).collect()))).collect()),
-        _ => { let n = rng.below(3) as usize; Item::bytes(&rng.bytes(n)) }
+        13 => { let n = rng.below(3) as usize; Item::bytes(&rng.bytes(n)) }
+        _ => {
+            // byte strings shaped like C strings: terminator present / missing / doubled, interior NULs
+            let mut b: Vec<u8> = (0..rng.below(5)).map(|_| 0x61 + rng.below(26) as u8).collect();
+            match rng.below(6) {
+                0 => {}
+                1 | 2 => b.push(0),
+                3 => { b.push(0); b.push(0) }
+                4 => { let k = rng.usize_below(b.len() + 1); b.insert(k, 0); b.push(0) }
+                _ => { let k = rng.usize_below(b.len() + 1); b.insert(k, 0) }
+            }
+            Item::bytes(&b)
+        }
     };
     let it = if rng.chance(1, 3) { vcore::gen::indefinite_containers(rng, &it, 60) } else { it };
     if rng.chance(1, 3) {
